@@ -407,9 +407,15 @@ pub fn execute_c05(scn: &WfScn, expect_failed_call: Option<usize>, ctx: &mut Ctx
     if wb.log[run.marks.last().map(|m| m.first_ev).unwrap_or(0)..].iter().any(|e| e.err.is_some()) {
         return;
     }
-    ctx.stats.reach("c05-clean-failed-write-judged");
     let ty = scn.w.shapes[0].ty;
     let written: Vec<&Geom> = run.written.iter().map(|i| &run.geoms[*i]).collect();
+    if written.is_empty() {
+        // every write failed: the header was reserved but no shape exists whose extremes it could
+        // hold - C05 makes no claim about that box
+        ctx.stats.reach("c05-no-shape-written-at-all");
+        return;
+    }
+    ctx.stats.reach("c05-clean-failed-write-judged");
     match crate::refcodec::decode_layout(wb.data(SHP)) {
         Ok(dec) => {
             if dec.recs.len() != written.len() {
